@@ -7,6 +7,10 @@ CHECKS = {
   text="Bounded symbolic model checking of Feature.get_sub_location_from_protein_coordinates / convert_protein_position_to_dna on genes with 1-3 exons and origin-spanning two-exon genes, either strand, symbolic exon boundaries (lengths not multiples of three), symbolic protein range: result has three bases per residue, the gene's strand, lies in the record, and for every position t the t-th base of the result in reading order is the (3s+t)-th coding base of the gene; of the TTA codon marker placement; and of codon_start handling in CDSFeature.from_biopython/to_biopython (reading frame starts codon_start-1 bases in; written location and qualifier are the originals).",
   note="'Extract and translate gives that stretch of the translation' is reduced to base-for-base equality of coding-order positions (Bio's extract concatenates parts in order, reverse-complementing on strand -1: trusted). Known finding C09-1 (TTA marker by start+offset) is reported as KNOWN-FINDING. Prepeptide leader/core/tail call the checked function with concrete string lengths and are not separately explored.",
   ref="3/C09"),
+ "C10": dict(
+  text="Bounded symbolic model checking, at object level, of the GenBank path (Record.to_biopython -> Record.from_biopython with every feature class's to/from_biopython) and the JSON path (record_to_json / feature_to_json -> record_from_json / feature_from_json / location_from_string) on a record with a gene, 1-2 (thorough: 3) protoclusters (core inside extent, optionally origin-spanning, optionally identical coordinates), the candidate clusters and regions the real formation code builds, and an optional subregion, all coordinates and the record length symbolic: the reloaded record has the same genes, protoclusters (product, location, core, cutoff, neighbourhood, number), candidates (kind, location, members, number), subregions and regions (location, candidate and subregion numbers, number) and gene-to-region links; converting the reloaded record again gives an identical feature table (fixed point); a second reload equals the first.",
+  note="The text layers - Bio.SeqIO GenBank writer/parser and json.dumps/loads - are modelled as identity on the feature / JSON tree and are outside the claim, as are domains, motifs, modules, gene functions and the sequence content (a length carrier).",
+  ref="3/C10"),
  "C12": dict(
   text="Bounded symbolic model checking of write_to_genbank / _build_base_record / _build_record_from_cross_origin / _adjust_features / _adjust_protocluster / _adjust_motif on a region (simple or origin-spanning) with a protocluster, candidate cluster, optional subregion, a gene (simple or origin-spanning on either strand) and a prepeptide-style motif, with symbolic coordinates and record length and - the point of doing it symbolically - symbolic record-wide numbers of the areas (any region of any record): the extract has the region's length, contains every feature shifted so that it covers the same bases (for all x), all numbers and cross references are renumbered from 1 consistently, core/leader locations are shifted with the region, and the full record's locations and qualifiers are unchanged afterwards.",
   note="Object level only: SeqRecord slicing/concatenation is modelled on the feature table (FakeSeqRecord, following Biopython's documented behaviour), seqio.write is captured at call time; GenBank text and re-parsing are outside the claim. One candidate cluster per region.",
